@@ -72,6 +72,8 @@ def gen_case(rng, n, tier, kind='model'):
         blend = bool(rng.random() < 0.2 and len(placed) > 0)
         if blend:
             k = int(rng.integers(0, len(placed)))
+            if sum(1 for q in srcs if q['island'] == srcs[k]['island']) >= 5:
+                continue            # blends of 2-5 components; longer chains make one fit with hundreds of parameters
             d = float(rng.uniform(0.9, 1.8)) * beam_px
             t = float(rng.uniform(0, 2 * np.pi))
             i, j = placed[k][0] + d * np.cos(t), placed[k][1] + d * np.sin(t)
